@@ -125,6 +125,9 @@ func (o *oracle) step(t int, r stepResult, obs []refObs) {
 		if r.tok == "B" {
 			o.tags["blocked"] = true
 		}
+		if r.tok == "Ds" {
+			o.tags["ev:Ds"] = true
+		}
 		o.checkRefs(obs, r.tok)
 		return
 	}
